@@ -23,6 +23,11 @@ CHECKS.update({
  "C16": ("7/C16", "differential testing CLI (in-process entry point on stdin and -f, plus subprocess sample) against the library calls", "Generated inputs x commands are run through the CLI on both channels and compared with the library's verdict/text, including the exact line-terminator rule and the emitted-file-passes-test clause.", TB + MODEL),
  "C17": ("7/C17", "generated directory trees with decoys; posixpath reference resolver; cwd x entry-spelling matrix", "Import chains over generated directory layouts are followed from several working directories and entry spellings and compared with a pure path computation; error classes are checked by exception type.", "Real temporary directories; os.chdir is confined to the shard process."),
 })
+SCOPE = " The reference resolver (vf/model/scope.py) implements Nix lexical scoping (lexical frames before with environments, inherit from the enclosing scope) over documents of a scoping grammar; situations the statement leaves undefined are not generated."
+CHECKS.update({
+ "C10": ("7/C10", "model-based testing against an independent lexical-scoping resolver over a scoping grammar; history machine over several live documents", "Every identifier-valued binding of generated scoping programs is resolved and compared with the reference resolver (right binding, or explicit ResolutionError; unbound/cyclic names must raise); a history part creates, resolves, moves nodes between and drops documents with gc in between.", TB + SCOPE),
+ "C11": ("7/C11", "model-based testing: expected document = input with the resolver-designated binding replaced; token-sequence equality", "For every reference-valued binding, set (CLI helper and API, fresh parse and one-object histories with rebinding steps) must change exactly the binding the reference resolver designates; the expected text is re-rendered from the model and compared token by token.", TB + SCOPE),
+})
 for pid, mod in [("C01", "round trip: token-sequence equality after rebuild"), ("C03", "round trip: comment multiset/order/barrier-position oracle"), ("C06", "round trip: second-pass fixed point + CLI test"), ("C18", "round trip: lexical spacing normal-form scan")]:
     pass
 
